@@ -37,7 +37,10 @@ EXPLANATION = ("Proved in Lean: calculate and infer are sound on the stated doma
 THEOREMS = ["Cppcheck.C01.calculate_sound", "Cppcheck.C01.calculate_error_iff", "Cppcheck.C01.infer_sound_counterexample",
             "Cppcheck.C01.infer_sound", "Cppcheck.C01.infer_prefix_sound_partial", "Cppcheck.C01.fold_binary_unsigned_wrap_counterexample",
             "Cppcheck.C01.fold_binary_sound_partial", "Cppcheck.C01.validator_sound", "Cppcheck.C01.validator_sound_bigstep",
-            "Cppcheck.C01.interpreter_agrees_bigstep"]
+            "Cppcheck.C01.interpreter_agrees_bigstep", "Cppcheck.C01.carry_impossible_shift_sound",
+            "Cppcheck.C01.carry_impossible_mul_counterexample", "Cppcheck.C01.carry_impossible_mul_zero_counterexample",
+            "Cppcheck.C01.carry_impossible_mul_sound_partial", "Cppcheck.C01.carry_impossible_div_not_carried",
+            "Cppcheck.C01.carry_div_counterexample"]
 MODULES = ["Cppcheck.Props.C01"]
 
 OPS = ["+", "-", "*", "/", "%", "&", "|", "^", ">", "<", "<<", ">>", "&&", "||", "==", "!=", ">=", "<=", "<=>"]
@@ -1107,6 +1110,25 @@ def classify_program_violation(prog, plat, f, toks, run_events, args=None, all_r
                 t = toks.get((o["line"], o["col"])) if o else None
                 if t and any(("possible" in v or "inconclusive" in v) and "intvalue" in v for v in t["values"]):
                     return "infer-minus-impossible-from-possible-ref"
+    if node[0] == "V" and f["k"] == "I":
+        # F1h: an Impossible value of x read after `x *= k` with a constant k <= 0 as the last write of the failing run, the reported
+        # value being a multiple of k (k < 0) resp. 0 (k = 0): the value was carried through a multiplication that is not
+        # strictly increasing
+        x = node[1]
+        j = next((j for j, (i, v) in enumerate(run_events) if i == f["occ"] and not fact_holds(f, v)), None)
+        wr = dict((id_, n) for id_, n in idx.items() if n[0] == "=" and n[2] == x or n[0] == "op=" and n[3] == x or n[0] == "++" and n[4] == x)
+        if j is not None:
+            for k in range(j - 1, -1, -1):
+                if run_events[k][0] in wr:
+                    n = wr[run_events[k][0]]
+                    if n[0] == "op=" and n[2] == "*":
+                        try:
+                            c = py_eval(plat, prog["vars"], n[4])
+                        except NonConst:
+                            c = None
+                        if c is not None and c <= 0 and (f["v"] == 0 if c == 0 else f["v"] % c == 0):
+                            return "impossible-carried-through-multiply-by-nonpositive"
+                    break
     if node[0] == "V" and all_runs is not None and f["k"] == "K" and f["b"] == "P":
         # F1a: the reported Known value of x is exactly the value a particular assignment W stores, W and the last writer of the
         # failing run are different statements, one of the two sits in an `if` branch that does not enclose this read, and there
@@ -1483,6 +1505,130 @@ def native_validation(ctx, res, drv, nprog, nargs):
               "" if not bad else "%d of %d runs differ; first: %s" % (len(bad), compared, bad[0]))
 
 
+# ---- targeted program families ------------------------------------------------------------------------------------------
+class TB:
+    """tiny builder of MiniC statements / expressions (nodes as in ProgGen)"""
+
+    def __init__(self):
+        self.n = 0
+
+    def id(self):
+        self.n += 1
+        return self.n
+
+    def L(self, v, ty="is"): return ("T", self.id(), ("L", v, ty))
+    def V(self, x): return ("T", self.id(), ("V", x))
+    def U(self, op, e): return ("T", self.id(), ("U", op, e))
+    def B(self, op, a, b): return ("T", self.id(), ("B", op, a, b))
+    def C(self, ty, e): return ("T", self.id(), ("C", ty, e))
+    def decl(self, x, e): return ("=", self.id(), x, e, True)
+    def asg(self, x, e): return ("=", self.id(), x, e, False)
+    def cas(self, op, x, e): return ("op=", self.id(), op, x, e)
+    def inc(self, x, inc=True, pre=False): return ("++", self.id(), inc, pre, x)
+
+    @staticmethod
+    def seq(*ss):
+        r = ss[-1]
+        for s in reversed(ss[:-1]):
+            r = (";", s, r)
+        return r
+
+
+def finish_program(plat, vars_, nparams, body):
+    names = [("p%d" if i < nparams else "v%d") % i for i in range(len(vars_))]
+    w = []
+    wire_stmt(body, w)
+    text, occ = Printer(names, vars_, nparams).func(body)
+    return dict(wire="%d %d %s %s" % (nparams, len(vars_), " ".join(vars_), " ".join(w)), text=text, occ=occ, vars=vars_, nparams=nparams,
+                body=body, plat=plat.name)
+
+
+def make_carry_program(rng, plat):
+    """condition on an int parameter, then compound assignments / ++ / -- with constant operands, then reads and comparisons:
+    the facts cppcheck carries through `x op= k` (forward analysis, ValueFlowAnalyzer::isWritable / writeValue)"""
+    b = TB()
+    vars_ = ["is", "is", "is", "is"]
+
+    def upd(x):
+        k = rng.random()
+        if k < 0.2:
+            return b.inc(x, rng.random() < 0.5, rng.random() < 0.5)
+        op = rng.choice(["+", "-", "*", "/", "/", "%", "<<", ">>", "&", "|", "^"])
+        c = {"*": [1, 2, 3, 4, 10], "/": [1, 2, 2, 3, 4, 10], "%": [2, 3, 4, 8, 10], "<<": [1, 2, 3], ">>": [1, 2, 3],
+             "&": [1, 3, 7, 255], "|": [1, 2, 8], "^": [1, 3, 8]}.get(op, [1, 2, 3, 5, 10, 100])
+        return b.cas(op, x, b.L(rng.choice(c)))
+
+    def cmpc(x):
+        return b.B(rng.choice(BIN_CMP), b.V(x), b.L(rng.choice([0, 0, 1, 2, 3, 4, 5, 6, 8, 10, 12])))
+    inner = [upd(0)]
+    if rng.random() < 0.3:
+        inner.append(upd(0))
+    inner.append(b.decl(2, b.V(0)))
+    inner.append(("if", cmpc(0), b.asg(1, b.L(1)), ("skip",)))
+    if rng.random() < 0.5:
+        inner.append(b.decl(3, b.B(rng.choice(["+", "-"]), b.V(0), b.L(rng.choice([1, 2, 5])))))
+    body = TB.seq(("if", cmpc(0), TB.seq(*inner), ("skip",) if rng.random() < 0.6 else upd(0)), ("return", b.V(0)))
+    return finish_program(plat, vars_, 2, body)
+
+
+def make_unary_program(rng, plat):
+    """`~ - !` applied to operands NARROWER than int (variables and casts of (un)signed char / short with Known values): the operand
+    is promoted to int first (C17 6.3.1.1), the result is used in int / long context and in comparisons"""
+    b = TB()
+    narrow = ["cu", "cs", "su", "ss"]
+    vars_, sts = [], []
+    nvar = rng.choice([1, 2, 2, 3])
+    for i in range(nvar):
+        t = rng.choice(narrow)
+        vars_.append(t)
+        v = rng.choice([0, 1, 15, 100, 127, 200, 255, 1000, 32767, 40000, 65535])
+        v = min(v, plat.tmax(t))
+        sts.append(b.decl(i, b.L(v)))
+
+    def operand():
+        if rng.random() < 0.7:
+            return b.V(rng.randrange(nvar))
+        t = rng.choice(narrow)
+        return b.C(t, b.L(min(rng.choice([0, 1, 15, 100, 200, 255, 1000, 40000]), plat.tmax(t))))
+    for _ in range(rng.choice([2, 3, 4])):
+        x = len(vars_)
+        vars_.append(rng.choice(["is", "is", "ls"]))
+        e = b.U(rng.choice(["~", "~", "-", "!"]), operand())
+        k = rng.random()
+        if k < 0.3:
+            e = b.B(rng.choice(["==", "!=", "<", ">"]), e, b.L(rng.choice([0, 55, 240, 255, 65535])))
+        elif k < 0.5:
+            e = b.B(rng.choice(["+", "&", "-"]), e, b.L(rng.choice([1, 15, 255])))
+        sts.append(b.decl(x, e))
+    sts.append(("return", b.V(len(vars_) - 1)))
+    return finish_program(plat, vars_, 0, TB.seq(*sts))
+
+
+# ---- translator: the operator list of the impossible-value guard in ValueFlowAnalyzer::isWritable ---------------------------------
+def check_carry_ops(ctx, res, drv):
+    """`value->isImpossible() && !Token::Match(parent, "<ops>")` must name exactly the operators of Calc.carryOps (fail closed)"""
+    path = os.path.join(core.REPO, "lib", "vf_analyzers.cpp")
+    try:
+        text = open(path, encoding="utf-8", errors="replace").read()
+    except OSError as ex:
+        res.oblig("T:isWritable-impossible-carry-ops", False, "translation", "cannot read %s: %s" % (path, ex))
+        return
+    m = re.search(r"Action\s+isWritable\s*\(", text)
+    window = text[m.start():m.start() + 3000] if m else ""
+    ms = re.findall(r'isImpossible\(\)\s*&&\s*!\s*Token::Match\(\s*parent\s*,\s*"([^"]*)"\s*\)', window)
+    rc, out, err = core.run_lines(drv, [], ["carryops"])
+    model = out[0].split("|") if out else []
+    if len(ms) != 1:
+        res.oblig("T:isWritable-impossible-carry-ops", False, "translation",
+                  "unrecognised shape: expected exactly one `value->isImpossible() && !Token::Match(parent, \"…\")` guard in ValueFlowAnalyzer::isWritable, found %d" % len(ms))
+        return
+    code = ms[0].split("|")
+    res.extra["isWritable_impossible_carry_ops"] = ms[0]
+    res.oblig("T:isWritable-impossible-carry-ops", sorted(code) == sorted(model), "translation",
+              "" if sorted(code) == sorted(model) else
+              "the code carries an Impossible value through %s, the model (Calc.carryOps, theorems carry_impossible_*) through %s" % (ms[0], "|".join(model)))
+
+
 def totuple(x):
     return tuple(totuple(y) for y in x) if isinstance(x, list) else x
 
@@ -1523,6 +1669,11 @@ def run(ctx, res):
     res.extra["corpus_programs"] = len(progs)
     for i in range(nprog):
         progs.append(make_program(ctx.rng, PLATFORMS[plats[i % len(plats)]]))
+    for i in range(600 if thorough else 40):
+        progs.append(make_carry_program(ctx.rng, PLATFORMS[plats[i % len(plats)]]))
+    for i in range(300 if thorough else 20):
+        progs.append(make_unary_program(ctx.rng, PLATFORMS[plats[i % len(plats)]]))
+    check_carry_ops(ctx, res, drv)
     run_programs(ctx, res, drv, progs, 300 if thorough else 200)
     native_validation(ctx, res, drv, 150 if thorough else 12, 12 if thorough else 6)
 
